@@ -328,6 +328,11 @@ func vfC06DrawTable(t *rapid.T) (tab []vfC06Entry, pool, heads []string) {
 		if rapid.IntRange(0, 19).Draw(t, g.lbl("upper")) == 0 {
 			g.tab[i].Domain = strings.ToUpper(g.tab[i].Domain)
 		}
+		if rapid.IntRange(0, 14).Draw(t, g.lbl("dot_pattern")) == 0 {
+			// the same name in its fully qualified spelling
+			g.tab[i].Domain += "."
+			vfC06.Class("table:pattern_with_trailing_dot")
+		}
 	}
 	// ... and so are the host names in answers (an address or an exception
 	// mark is left alone).
@@ -361,7 +366,8 @@ func vfC06DrawQuery(t *rapid.T, tab []vfC06Entry, pool, heads []string, i int) (
 		host = rapid.SampledFrom(heads).Draw(t, l("head"))
 	case len(tab) > 0 && src >= 0 && src < 5:
 		e := tab[rapid.IntRange(0, len(tab)-1).Draw(t, l("entry"))]
-		host = strings.ToLower(e.Domain)
+		// what callers look up never has the final dot
+		host = strings.TrimSuffix(strings.ToLower(e.Domain), ".")
 		if src == 4 && vfC06Parse(e).kind == vfC06CNAME {
 			host = e.Answer
 		}
@@ -522,7 +528,8 @@ func vfC06Build(t vfC06Fataler, dir string, tab []vfC06Entry, mode int) (d *DNSF
 			t.Fatalf("after the edits rewrite/list has %d entries, want %d: %s", len(listed), len(tab), w.Body.String())
 		}
 		for i, e := range tab {
-			if !strings.EqualFold(listed[i].Domain, e.Domain) || !strings.EqualFold(listed[i].Answer, e.Answer) {
+			// the same name, whatever its spelling
+			if !strings.EqualFold(strings.TrimSuffix(listed[i].Domain, "."), strings.TrimSuffix(e.Domain, ".")) || !strings.EqualFold(listed[i].Answer, e.Answer) {
 				d.Close()
 				t.Fatalf("after the edits rewrite/list entry %d is %+v, want %+v", i, listed[i], e)
 			}
